@@ -62,6 +62,10 @@ var behaviours = []behaviour{
 	{"nil-func-call", true, func(t *f1testing.T) { var f func(); f() }},
 	{"panic(wrapped-error)", true, func(t *f1testing.T) { panic(fmt.Errorf("wrapped: %w", io.EOF)) }},
 	{"panic(typed-nil-pointer)", true, func(t *f1testing.T) { var p *custom; panic(p) }},
+	// a value whose own String method panics (a nil pointer whose String dereferences the receiver): whoever
+	// renders it must survive that
+	{"panic(stringer-whose-String-panics)", true, func(t *f1testing.T) { var b *badStringer; panic(b) }},
+	{"panic(error-whose-Error-panics)", true, func(t *f1testing.T) { var b *badError; panic(error(b)) }},
 	{"panic(nil-error-pointer)", true, func(t *f1testing.T) { var e *nilErr; var err error = e; panic(err) }},
 	// boundary arguments of the failure APIs, and the APIs that do not mark failure
 	{"Error(nil)", true, func(t *f1testing.T) { t.Error(nil) }},
@@ -75,6 +79,14 @@ var behaviours = []behaviour{
 	{"runtime-error-in-timed-stage", true, func(t *f1testing.T) { t.Time("stage", func() { var m map[string]int; m["x"] = 1 }) }},
 	{"Log+Logf+timed-stage", false, func(t *f1testing.T) { t.Log("x", 1); t.Logf("%d", 1); t.Time("stage", func() {}) }},
 }
+
+type badStringer struct{ n *int }
+
+func (b *badStringer) String() string { return fmt.Sprint(*b.n) }
+
+type badError struct{ n *int }
+
+func (b *badError) Error() string { return fmt.Sprint(*b.n) }
 
 type nilErr struct{}
 
